@@ -40,12 +40,15 @@ package json
 //@   trusted reflection-only check of the destination type
 //@   assigns nothing
 
+//@ ufun dsize(Int) Int
 //@ spec privateCopy(src, data) := len(src) == len(data) + 1 && src[len(data)] == 0 && forall k :: 0 <= k && k < len(data) ==> src[k] == data[k]
 
 // C12: the decoder works on a copy allocated in this call; C11: nothing the decoder is given
 // depends on what the pooled context held before (poolfree); C06: the sentinel precondition.
 //@ func unmarshal(data, v, optFuncs) (err)
 //@   props C11 C12 C06
+// the copy was allocated after the destination object existed, so they do not overlap
+//@   callassume Decode: arg4 + dsize(dataOf(arg0)) <= ptrOf(src) || ptrOf(src) + len(src) <= arg4
 //@   callassert[C12] Decode: freshAlloc(src) && ctx.Buf == src && privateCopy(src, data)
 //@   callassert[C11] Decode: poolfree(ctx.Buf) && poolfree(ctx.Option.Flags) && poolfree(ctx.Option.Context)
 //@   assigns all
@@ -53,6 +56,8 @@ package json
 
 //@ func unmarshalNoEscape(data, v, optFuncs) (err)
 //@   props C11 C12 C06
+// the copy was allocated after the destination object existed, so they do not overlap
+//@   callassume Decode: arg4 + dsize(dataOf(arg0)) <= ptrOf(src) || ptrOf(src) + len(src) <= arg4
 //@   callassert[C12] Decode: freshAlloc(src) && ctx.Buf == src && privateCopy(src, data)
 //@   callassert[C11] Decode: poolfree(ctx.Buf) && poolfree(ctx.Option.Flags) && poolfree(ctx.Option.Context)
 //@   assigns all
@@ -60,6 +65,8 @@ package json
 
 //@ func unmarshalContext(ctx, data, v, optFuncs) (err)
 //@   props C11 C12 C06
+// the copy was allocated after the destination object existed, so they do not overlap
+//@   callassume Decode: arg4 + dsize(dataOf(arg0)) <= ptrOf(src) || ptrOf(src) + len(src) <= arg4
 //@   callassert[C12] Decode: freshAlloc(src) && rctx.Buf == src && privateCopy(src, data)
 //@   callassert[C11] Decode: poolfree(rctx.Buf) && poolfree(rctx.Option.Flags) && poolfree(rctx.Option.Context) && rctx.Option.Context == ctx
 //@   assigns all
